@@ -1,0 +1,212 @@
+//go:build verif
+
+// Verification hooks: read-only access to internals for the external
+// verification harness. Only compiled with `-tags verif`.
+
+package getoptions
+
+import (
+	"fmt"
+	"io"
+	"sort"
+
+	"github.com/DavidGamba/go-getoptions/internal/option"
+)
+
+// VerifPair - exported copy of optionPair.
+type VerifPair struct {
+	Option string
+	Args   []string
+}
+
+// VerifIsOption - exposes the token splitter.
+func VerifIsOption(s string, mode Mode) ([]VerifPair, bool) {
+	pairs, is := isOption(s, mode, false)
+	out := make([]VerifPair, 0, len(pairs))
+	for _, p := range pairs {
+		out = append(out, VerifPair{Option: p.Option, Args: append([]string{}, p.Args...)})
+	}
+	return out, is
+}
+
+// VerifSetExit - replaces the exit function used by the completion path, returns the previous one.
+func VerifSetExit(fn func(int)) func(int) {
+	old := exitFn
+	exitFn = fn
+	return old
+}
+
+// VerifSetCompletionWriter - replaces the completion writer, returns the previous one.
+func VerifSetCompletionWriter(w io.Writer) io.Writer {
+	old := completionWriter
+	completionWriter = w
+	return old
+}
+
+// VerifOption - dump of one option object.
+type VerifOption struct {
+	ID                int // identity of the shared option object within one dump
+	Name              string
+	Aliases           []string
+	Kind              int
+	MinArgs           int
+	MaxArgs           int
+	IsOptional        bool
+	IsRequired        bool
+	IsRequiredErr     string
+	EnvVar            string
+	DefaultStr        string
+	Description       string
+	HelpArgName       string
+	HelpSynopsis      string
+	ValidValues       []string
+	ValidValuesQ      string // fmt %q rendering of ValidValues, as used in the wrong value error
+	SuggestedValues   []string
+	HasSuggestedFn    bool
+	BoolDefault       bool
+	Called            bool
+	UsedAlias         string
+	ValueKind         string // bool int string float strings ints floats map
+	ValueBool         bool
+	ValueInt          int
+	ValueString       string
+	ValueFloat        float64
+	ValueStrings      []string
+	ValueInts         []int
+	ValueFloats       []float64
+	ValueMapKeys      []string // sorted
+	ValueMapVals      []string
+	SuggestedValuesFn option.ValueCompletionsFn
+}
+
+// VerifNode - dump of one node of the program tree.
+type VerifNode struct {
+	Name            string
+	Description     string
+	Level           int
+	OptionKeys      []string // sorted
+	OptionIDs       []int    // parallel to OptionKeys
+	CommandKeys     []string // sorted
+	Commands        []*VerifNode
+	UnknownMode     int
+	RequireOrder    bool
+	HelpCommandName string
+	SkipOptionsCopy bool
+	Mode            int
+	MapKeysToLower  bool
+	Suggestions     []string
+	SuggestionFns   []ArgCompletionsFn
+	SynopsisArgs    [][2]string
+	HasCommandFn    bool
+	ChildText       []string
+}
+
+// VerifDump - dump of the definition tree: the nodes and the table of distinct option objects.
+type VerifDump struct {
+	Root    *VerifNode
+	Options []*VerifOption // index = ID
+}
+
+// VerifDumpTree - dumps the tree rooted at this GetOpt's node.
+func (gopt *GetOpt) VerifDumpTree() *VerifDump {
+	d := &VerifDump{}
+	ids := map[*option.Option]int{}
+	d.Root = verifDumpNode(gopt.programTree, d, ids)
+	return d
+}
+
+// VerifDumpFinal - dumps the tree rooted at the node selected by the last Parse (nil before Parse).
+func (gopt *GetOpt) VerifDumpFinal() *VerifDump {
+	if gopt.finalNode == nil {
+		return nil
+	}
+	d := &VerifDump{}
+	ids := map[*option.Option]int{}
+	d.Root = verifDumpNode(gopt.finalNode, d, ids)
+	return d
+}
+
+func verifDumpOption(o *option.Option, id int) *VerifOption {
+	v := &VerifOption{
+		ID: id, Name: o.Name, Aliases: append([]string{}, o.Aliases...), Kind: int(o.OptType),
+		MinArgs: o.MinArgs, MaxArgs: o.MaxArgs, IsOptional: o.IsOptional,
+		IsRequired: o.IsRequired, IsRequiredErr: o.IsRequiredErr, EnvVar: o.EnvVar,
+		DefaultStr: o.DefaultStr, Description: o.Description, HelpArgName: o.HelpArgName,
+		HelpSynopsis: o.HelpSynopsis, ValidValues: append([]string{}, o.ValidValues...),
+		ValidValuesQ:    fmt.Sprintf("%q", o.ValidValues),
+		SuggestedValues: append([]string{}, o.SuggestedValues...), HasSuggestedFn: o.SuggestedValuesFn != nil,
+		Called: o.Called, UsedAlias: o.UsedAlias, SuggestedValuesFn: o.SuggestedValuesFn,
+	}
+	switch x := o.Value().(type) {
+	case bool:
+		v.ValueKind, v.ValueBool = "bool", x
+	case int:
+		v.ValueKind, v.ValueInt = "int", x
+	case string:
+		v.ValueKind, v.ValueString = "string", x
+	case float64:
+		v.ValueKind, v.ValueFloat = "float", x
+	case []string:
+		v.ValueKind, v.ValueStrings = "strings", append([]string{}, x...)
+	case []int:
+		v.ValueKind, v.ValueInts = "ints", append([]int{}, x...)
+	case []float64:
+		v.ValueKind, v.ValueFloats = "floats", append([]float64{}, x...)
+	case map[string]string:
+		v.ValueKind = "map"
+		for k := range x {
+			v.ValueMapKeys = append(v.ValueMapKeys, k)
+		}
+		sort.Strings(v.ValueMapKeys)
+		for _, k := range v.ValueMapKeys {
+			v.ValueMapVals = append(v.ValueMapVals, x[k])
+		}
+	}
+	if o.OptType == option.BoolType {
+		// boolDefault is private to the option package; it is the value a bool option had when it was defined.
+		// Recover it without touching the option: Save() with no argument sets !boolDefault.
+		cur := o.Value().(bool)
+		o.SetBoolAsOppositeToDefault()
+		v.BoolDefault = !o.Value().(bool)
+		o.SetBool(cur)
+	}
+	return v
+}
+
+func verifDumpNode(n *programTree, d *VerifDump, ids map[*option.Option]int) *VerifNode {
+	v := &VerifNode{
+		Name: n.Name, Description: n.Description, Level: n.Level,
+		UnknownMode: int(n.unknownMode), RequireOrder: n.requireOrder,
+		HelpCommandName: n.HelpCommandName, SkipOptionsCopy: n.skipOptionsCopy,
+		Mode: int(n.mode), MapKeysToLower: n.mapKeysToLower,
+		Suggestions:   append([]string{}, n.Suggestions...),
+		SuggestionFns: append([]ArgCompletionsFn{}, n.SuggestionFns...),
+		HasCommandFn:  n.CommandFn != nil,
+		ChildText:     append([]string{}, n.ChildText...),
+	}
+	for _, a := range n.SynopsisArgs {
+		v.SynopsisArgs = append(v.SynopsisArgs, [2]string{a.Arg, a.Description})
+	}
+	for k := range n.ChildOptions {
+		v.OptionKeys = append(v.OptionKeys, k)
+	}
+	sort.Strings(v.OptionKeys)
+	for _, k := range v.OptionKeys {
+		o := n.ChildOptions[k]
+		id, ok := ids[o]
+		if !ok {
+			id = len(d.Options)
+			ids[o] = id
+			d.Options = append(d.Options, verifDumpOption(o, id))
+		}
+		v.OptionIDs = append(v.OptionIDs, id)
+	}
+	for k := range n.ChildCommands {
+		v.CommandKeys = append(v.CommandKeys, k)
+	}
+	sort.Strings(v.CommandKeys)
+	for _, k := range v.CommandKeys {
+		v.Commands = append(v.Commands, verifDumpNode(n.ChildCommands[k], d, ids))
+	}
+	return v
+}
